@@ -78,7 +78,7 @@ def run(tier):
     v.notes['e1'] = dict(table_entries=65536, step_pairs_swept=1 << 24, two_octet_buffers=pairs2, single_words=pairs2,
                          tlc_transitions_checked=r.generated)
     vf.trace_flow(v, 'Crc16Trace.tla', 'Crc16Trace.cfg', 'crc',
-                  list(e2_scripts(rnd, 150 if quick else 1500, 1024 if quick else 4096)) + big_scripts(rnd, quick), 'crctrace')
+                  list(e2_scripts(rnd, 150 if quick else 6000, 1024 if quick else 4096)) + big_scripts(rnd, quick), 'crctrace')
     v.cov['rule'] = ('E0: TLC checks table form and xor law against the bit-serial definition on all 65536 states x the configured octets. '
                      'E1: library update step on all 2^24 (state, octet) pairs vs E0[c xor d] from TLC; all two-octet buffers and single words '
                      'from every stride-th state. E2: random buffers (each split at every position inside the adapter) and word buffers '
